@@ -624,6 +624,12 @@ package parser
 //@   ensures [C15:default-scope] result1 == nil ==> (result0 != nil && result0.Scope == old(ScopeFor(p, token.LOCAL)) && (result0.Scope == token.GLOBAL || result0.Scope == token.LOCAL || old(p.peekToken.Type) != token.LPAREN))
 //@   ensures [C20:stack-balanced] result1 == nil ==> (SameStack(p.breakStack, old(p.breakStack)) && SameStack(p.continueStack, old(p.continueStack)))
 //@   ensures [C18:located] result1 != nil ==> ErrLoc(result1)
+// C13, C14: Items are the constant-substituted literals of TokenItems, one for one, in order
+//@   ensures [C13,C14:mart-items] result1 == nil ==> (len(result0.Items) == len(result0.TokenItems) && (forall k int :: {result0.Items[k]} (0 <= k && k < len(result0.Items)) ==>
+//@        result0.Items[k] == (indom(p.constants, result0.TokenItems[k].Literal) ? p.constants[result0.TokenItems[k].Literal] : result0.TokenItems[k].Literal)))
+//@   loop 1
+//@     invariant [C13,C14:mart-items-inv] len(statement.Items) == $i && $i <= len(statement.TokenItems) && (forall k int :: {statement.Items[k]} (0 <= k && k < $i) ==>
+//@        statement.Items[k] == (indom(p.constants, statement.TokenItems[k].Literal) ? p.constants[statement.TokenItems[k].Literal] : statement.TokenItems[k].Literal))
 //@ end
 
 //@ func parseMartValue
@@ -633,6 +639,10 @@ package parser
 //@   ensures [C20:stack-balanced] result1 == nil ==> (SameStack(p.breakStack, old(p.breakStack)) && SameStack(p.continueStack, old(p.continueStack)))
 //@   ensures [C18:located] result1 != nil ==> ErrLoc(result1)
 //@   loopinv [C20:stack-balanced-inv] SameStack(p.breakStack, old(p.breakStack)) && SameStack(p.continueStack, old(p.continueStack))
+// C14: every identifier is one item, in order; what is already collected is never touched
+//@   loop 1
+//@     transition [C14:items] PrefixKeptT(martCommands, prev(martCommands))
+//@        && (prev(p.curToken.Type) == token.IDENT ==> (len(martCommands) == len(prev(martCommands)) + 1 && martCommands[len(prev(martCommands))] == prev(p.curToken)))
 //@ end
 
 //@ func (p *Parser) parseMapscriptsStatement
